@@ -619,10 +619,34 @@ pub fn run_c22(ctx: &mut Ctx) {
         }
         ctx.count("small_int_cases");
     }
+    // directed: long atoms around the block sizes hashing code is likely to use (64-byte SHA blocks, 512 / 1024 / 4096 /
+    // 8192 / 65536-byte I/O chunks), alone and inside a small tree
+    {
+        let lens: &[usize] = if ctx.miri { &[63, 65] } else if ctx.light { &[63, 64, 65, 1025, 8193] } else {
+            &[55, 56, 63, 64, 65, 119, 511, 512, 513, 1023, 1024, 1025, 4095, 4096, 4097, 8191, 8192, 8193, 9000, 16383, 16384, 16385, 65535, 65536, 65537, 100_000, 1_048_577]
+        };
+        for (k, len) in lens.iter().enumerate() {
+            let cid = DIRECTED | id;
+            id += 1;
+            if !ctx.want(cid) {
+                continue;
+            }
+            let mut r = ctx.rng(cid);
+            let mut f = Forest::new();
+            let body: Vec<u8> = (0..*len).map(|i| (i * 31 + k) as u8).collect();
+            let x = f.atom(&body);
+            check22(ctx, &mut r, &f, x);
+            let five = f.atom(&[5]);
+            let p = f.pair(five, x);
+            let t = f.pair(p, x);
+            check22(ctx, &mut r, &f, t);
+            ctx.count("long_atom_cases");
+        }
+    }
     let n = ctx.n(600_000, 20_000_000);
     random_cases!(ctx, n, |r, _i| {
         let mut f = Forest::new();
-        let ma = if r.chance(1, 30) { 5000 } else { 60 };
+        let ma = if r.chance(1, 30) { 5000 } else if r.chance(1, 200) { 70_000 } else { 60 };
         let t = small_tree(&mut r, &mut f, 200, ma);
         let (pairs, atoms, _) = f.expanded_stats(t);
         if pairs + atoms > 200_000 {
